@@ -253,7 +253,7 @@ PROPS = {
         "functions": ["GenericPollPacket::poll", "Packet::decode_async", "Packet::decode", "GenericPollPacketState::default"],
         "bounds": {"all": "C05 streams (bodies up to 4 bytes, headers up to 6 bytes) and the C06 shape list; sequences by induction, not by enumeration"},
         "outside": "real packets with 2-4 byte remaining-length fields (bodies >= 128 bytes) through the blocking/async decoders; the poll side covers wide headers with the generic header only",
-        "tiers": {"quick": {"modules": ["p_c05", "g_c06"], "generators": ["c06_quick"], "select": r"^c08_|^c05_steps_(all_rem2|all_rem2_hl3|all_rem2_hl5|empty_hl2|empty_hl3|empty_hl5)$|_(publish_q1_t1_p1|connack|suback_2|pingreq|puback|connect_v311_f02_c1|disconnect_empty|auth_empty|subscribe_1|puback_short|publish_q0_t1_p1_x03l1|unsubscribe_1_nonmin|unsubscribe_2_x26l1_1_nonmin)__agree(_ct)?$",
+        "tiers": {"quick": {"modules": ["p_c05", "g_c06"], "generators": ["c06_quick"], "select": r"^c08_|^c05_steps_(all_rem2|all_rem2_hl3|all_rem2_hl5|empty_hl2|empty_hl3|empty_hl5)$|_(publish_q1_t1_p1|publish_q1_t2_p2|connack|suback_2|pingreq|puback|connect_v311_f02_c1|disconnect_empty|auth_empty|subscribe_1|puback_short|publish_q0_t1_p1_x03l1|unsubscribe_1_nonmin|unsubscribe_2_x26l1_1_nonmin)__agree(_ct)?$",
                             "timeout_s": 900, "mem_gb": 10, "jobs": 14},
                   "thorough": {"modules": ["p_c05", "g_c06"], "generators": ["c06_thorough"], "select": r"^c08_|^c05_steps_|__agree(_ct)?$", "timeout_s": 1800, "mem_gb": 12, "jobs": 10}},
     },
